@@ -89,6 +89,12 @@ type World struct {
 	Vers        map[int64]*VerState
 	First       int64
 	Latest      int64
+	// LegacyLatest: highest version stored in the legacy (pre-1.0) format, 0 = none (C16). DeleteVersionsTo below it is
+	// a no-op by design ("it will delete the legacy versions at once"), at or above it deletes all of them.
+	LegacyLatest int64
+	LegacyOrig   int64            // latest legacy version when the store was opened (node versions <= it are legacy nodes)
+	Reformatted  map[int64]*RNode // legacy node version -> the legacy node that a reference-root commit re-formatted at (version,0)
+	F29Exposed   bool
 	Base        int64 // first version number ever committed on this store (0 = none yet)
 	Cur         int64 // version the working tree is based on
 	WRoot       *RNode
@@ -343,6 +349,10 @@ func (w *World) Apply(op Op) (v *Violation) {
 		}
 		w.Latest = n
 		w.Cur = n
+		if w.LegacyLatest > n {
+			w.LegacyLatest = n
+			w.Labels["rollback_into_legacy"] = true
+		}
 		w.setWorkingFrom(n)
 		w.Labels["lvfo"] = true
 		if w.Obs.Fresh {
@@ -363,6 +373,10 @@ func (w *World) Apply(op Op) (v *Violation) {
 			delete(w.Vers, v)
 		}
 		w.Latest = n
+		if w.LegacyLatest > n {
+			w.LegacyLatest = n
+			w.Labels["rollback_into_legacy"] = true
+		}
 		if op.Flag {
 			_ = w.Tree.Close()
 			w.reopenBackend()
@@ -466,6 +480,17 @@ func (w *World) applySave(op Op) *Violation {
 		return w.viol("save.hash", "SaveVersion(%d) hash %x want %x", wv, h, wantHash)
 	}
 	noop := !hasUnstamped(w.WRoot) && w.WRoot != nil
+	if noop && w.WRoot.Version <= w.LegacyOrig {
+		// the root is a legacy node: the commit re-formats it under (node version, 0)
+		if w.Reformatted == nil {
+			w.Reformatted = map[int64]*RNode{}
+		}
+		if prev, ok := w.Reformatted[w.WRoot.Version]; ok && prev != w.WRoot {
+			w.F29Exposed = true
+		}
+		w.Reformatted[w.WRoot.Version] = w.WRoot
+		w.Labels["commit_on_legacy_root"] = true
+	}
 	if noop {
 		w.Labels["noop_commit"] = true
 	}
@@ -603,6 +628,18 @@ func (w *World) applyPrune(op Op) *Violation {
 	}
 	if w.Trace != nil && w.Trace.KindCount("BatchWrite")-j0 >= 2 {
 		w.Labels["prune_split"] = true
+	}
+	if w.LegacyLatest > 0 && n < w.LegacyLatest {
+		// below the legacy/new boundary: nothing is deleted
+		w.Labels["prune_below_legacy_boundary"] = true
+		if w.Obs.Fresh {
+			return w.checkFresh("prune")
+		}
+		return nil
+	}
+	if w.LegacyLatest > 0 {
+		w.Labels["prune_across_legacy_boundary"] = true
+		w.LegacyLatest = 0
 	}
 	if n >= w.First {
 		w.Labels["prune"] = true
@@ -1074,6 +1111,17 @@ func drain(it corestore.Iterator) ([]KV, error) {
 	return out, it.Close()
 }
 
+// Retained returns the retained version numbers in ascending order (contiguous for new-format stores; a legacy
+// store may have holes).
+func (w *World) Retained() []int64 {
+	out := make([]int64, 0, len(w.Vers))
+	for v := range w.Vers {
+		out = append(out, v)
+	}
+	sort.Slice(out, func(i, j int) bool { return out[i] < out[j] })
+	return out
+}
+
 // probeVersions: 0, 1 and every version number from just below the first version ever committed to latest+1.
 func (w *World) probeVersions() []int64 {
 	out := []int64{0}
@@ -1101,7 +1149,7 @@ func (w *World) checkVersions(tr *iavl.MutableTree, via string) *Violation {
 	obs := func(s string) string { return via + s }
 	if w.Obs.Versions || w.Obs.Reads {
 		var wantAvail []int
-		for v := w.First; v <= w.Latest && w.Latest > 0; v++ {
+		for _, v := range w.Retained() {
 			wantAvail = append(wantAvail, int(v))
 		}
 		av := tr.AvailableVersions()
